@@ -50,6 +50,9 @@ CHECKS = {
  'C46': dict(cat='proof', tech='deductive: symbolic option lattice through the real Session._create_response_future, message constructors and BoundStatement.__init__',
              text='Every option (consistency, serial consistency, retry policy, timeout, fetch size, row factory, load balancer, timestamp, keyspace, speculative plan) is checked against first_not_none(statement, profile | session) with all set/unset combinations symbolic, both configuration modes, three statement kinds, all protocol versions; wire encoding of those fields is C03.',
              ref='DESIGN.md §4 C46'),
+ 'C14': dict(cat='proof', tech='deductive: typestate contracts with a ghost delivery log on the real ResponseFuture completion functions, callback registration, result(), every branch of _set_result (progress), _on_speculative_execute and start_fetching_next_page; lock-discipline obligations',
+             text='Exactly-once delivery is the typestate contract of the two completion functions (proved for any number of registered callbacks up to 2 of each kind, unrolled) plus one-way-forward progress for every response kind. The typestate precondition is NOT established by the callers: recorded as known finding KF-C14-second-completion (a second outcome is delivered again).',
+             ref='DESIGN.md §4 C14'),
 }
 
 NA_REASON = {}
